@@ -445,9 +445,22 @@ fn gen_tree(env: &Env, ch: &mut Chooser, tag: &str, allow_conflicts: bool) -> Me
                 b.set_or_remove(rp(p), Merge::normal(TreeValue::Symlink(id)));
             }
             _ => {
-                let base = format!("l1\nl2 base {tag}\nl3\nl4\n");
-                let s1 = format!("l1\nl2 left {tag}\nl3\nl4\n");
-                let s2 = format!("l1\nl2 right {tag}\nl3\nl4\n");
+                // the conflicting line is sometimes a run of marker characters:
+                // shorter than a marker ("------" becomes a 7-character line once
+                // a diff-style hunk prefixes it), exactly marker-sized, or longer
+                let markerish = ["------", "++++++", "-------", "+++++++", "<<<<<<<", ">>>>>>> x", "=======", "%%%%%%%%% y", "\\\\\\\\"];
+                let (mut l2b, mut l2l, mut l2r) = (format!("l2 base {tag}"), format!("l2 left {tag}"), format!("l2 right {tag}"));
+                if ch.chance(1, 3) {
+                    let m = markerish[ch.choose(markerish.len())].to_string();
+                    match ch.choose(3) {
+                        0 => l2b = m,
+                        1 => l2l = m,
+                        _ => l2r = m,
+                    }
+                }
+                let base = format!("l1\n{l2b}\nl3\nl4\n");
+                let s1 = format!("l1\n{l2l}\nl3\nl4\n");
+                let s2 = format!("l1\n{l2r}\nl3\nl4\n");
                 let fv = |c: &str, e: bool| Some(file_value(store, p, c.as_bytes(), e));
                 let exec1 = ch.chance(1, 6);
                 let m: MergedTreeValue = match ch.weighted(&[4, 2, 2, 1]) {
